@@ -1,0 +1,119 @@
+//! Verification hooks, compiled only with `--cfg iroh_verif`.
+//!
+//! Thin wrappers that make the report aggregation ([`Report::update`],
+//! [`RelayLatencies`]) and the report history
+//! (`Client::add_report_history_and_set_preferred_relay`) callable from outside the
+//! crate.  They add no logic of their own.
+
+use std::net::SocketAddr;
+
+use iroh_base::RelayUrl;
+use iroh_relay::RelayMap;
+use n0_future::time::Duration;
+
+use super::{
+    Client, Options, Probe, RelayLatencies, Report,
+    reportgen::{HttpsProbeReport, ProbeReport, QadProbeReport},
+};
+
+/// Calls [`Report::update`] with an HTTPS probe report.
+pub fn report_update_https(report: &mut Report, relay: RelayUrl, latency: Duration) {
+    report.update(&ProbeReport::Https(HttpsProbeReport { relay, latency }));
+}
+
+/// Calls [`Report::update`] with a QAD IPv4 probe report carrying `addr`.
+pub fn report_update_qad_v4(
+    report: &mut Report,
+    relay: RelayUrl,
+    latency: Duration,
+    addr: SocketAddr,
+) {
+    report.update(&ProbeReport::QadIpv4(QadProbeReport {
+        relay,
+        latency,
+        addr,
+    }));
+}
+
+/// Calls [`Report::update`] with a QAD IPv6 probe report carrying `addr`.
+pub fn report_update_qad_v6(
+    report: &mut Report,
+    relay: RelayUrl,
+    latency: Duration,
+    addr: SocketAddr,
+) {
+    report.update(&ProbeReport::QadIpv6(QadProbeReport {
+        relay,
+        latency,
+        addr,
+    }));
+}
+
+/// Calls [`RelayLatencies::update_relay`].
+pub fn latencies_update_relay(
+    latencies: &mut RelayLatencies,
+    url: RelayUrl,
+    latency: Duration,
+    probe: Probe,
+) {
+    latencies.update_relay(url, latency, probe);
+}
+
+/// Calls [`RelayLatencies::merge`].
+pub fn latencies_merge(latencies: &mut RelayLatencies, other: &RelayLatencies) {
+    latencies.merge(other);
+}
+
+/// Calls [`RelayLatencies::get`].
+pub fn latencies_get(latencies: &RelayLatencies, url: &RelayUrl) -> Option<Duration> {
+    latencies.get(url)
+}
+
+/// Calls [`RelayLatencies::is_empty`].
+pub fn latencies_is_empty(latencies: &RelayLatencies) -> bool {
+    latencies.is_empty()
+}
+
+/// The report history of a net report [`Client`] that never runs a probe.
+#[derive(Debug)]
+pub struct ReportHistory {
+    client: Client,
+}
+
+impl Default for ReportHistory {
+    fn default() -> Self {
+        Self::new()
+    }
+}
+
+impl ReportHistory {
+    /// Creates a client with an empty relay map and an empty history.
+    pub fn new() -> Self {
+        let tls_config = crate::tls::CaTlsConfig::embedded()
+            .client_config(crate::tls::default_provider())
+            .expect("embedded roots");
+        let client = Client::new(
+            crate::dns::DnsResolver::new(),
+            RelayMap::empty(),
+            Options::new(tls_config),
+            Default::default(),
+        );
+        Self { client }
+    }
+
+    /// Calls `Client::add_report_history_and_set_preferred_relay`.
+    pub fn add(&mut self, report: &mut Report) {
+        self.client
+            .add_report_history_and_set_preferred_relay(report);
+    }
+
+    /// Number of reports currently retained in the history.
+    pub fn prev_len(&self) -> usize {
+        self.client.reports.prev.len()
+    }
+
+    /// The most recently added report, if any.
+    pub fn last(&self) -> Option<&Report> {
+        self.client.reports.last.as_ref()
+    }
+}
